@@ -437,6 +437,22 @@ func (c *Ctx) c17Fallback() {
 			}
 		}
 		r.Check(cyc == "", "R3", "dict.parentAppIds:acyclic", "-", fmt.Sprintf("%d parent links, every chain leaves the key set", len(m)), "parentAppIds has a cycle through application "+cyc+": the `goto retry` fallback loop never terminates for an AVP missing from those applications")
+	} else if m, name := c.c17ParentFunc(f); m != nil {
+		cyc := ""
+		for k := range m {
+			x := k
+			for i := 0; i <= len(m); i++ {
+				nx, ok := m[x]
+				if !ok {
+					break
+				}
+				x = nx
+				if i == len(m) {
+					cyc = fmt.Sprint(k)
+				}
+			}
+		}
+		r.Check(cyc == "", "R3", "dict.parentAppIds:acyclic", "-", fmt.Sprintf("%d parent links in %s, every chain leaves the key set", len(m), name), name+" has a cycle through application "+cyc+": the fallback loop never terminates for an AVP missing from those applications")
 	} else {
 		r.Undecided("R3", "dict.parentAppIds:acyclic", "-", "cannot read parentAppIds")
 	}
@@ -787,4 +803,46 @@ func (c *Ctx) onlyViaOnce(f *ssa.Function) bool {
 		}
 	}
 	return uses > 0
+}
+
+// c17ParentFunc: the parent relation written as a constant-table function called (through library helpers) from the
+// lookup with one integer argument; nil when there is none or more than one.
+func (c *Ctx) c17ParentFunc(f *ssa.Function) (map[int64]int64, string) {
+	var tabs []map[int64]int64
+	var names []string
+	seen := map[*ssa.Function]bool{}
+	var walk func(g *ssa.Function, d int)
+	walk = func(g *ssa.Function, d int) {
+		if g == nil || seen[g] || d > 4 || g.Blocks == nil || !c.P.IsLibrary(g) {
+			return
+		}
+		seen[g] = true
+		flow.Instrs(g, func(in ssa.Instruction) {
+			call, ok := in.(ssa.CallInstruction)
+			if !ok {
+				return
+			}
+			h := flow.StaticCallee(call)
+			if h == nil || pkgOf(h) == nil || pkgOf(h).Path() != pkgDict {
+				return
+			}
+			if tab, _, _, ok := constTable(h); ok {
+				if !seen[h] {
+					seen[h] = true
+					tabs = append(tabs, tab)
+					names = append(names, h.Name())
+				}
+				return
+			}
+			walk(h, d+1)
+		})
+		for _, an := range g.AnonFuncs {
+			walk(an, d+1)
+		}
+	}
+	walk(f, 0)
+	if len(tabs) != 1 {
+		return nil, ""
+	}
+	return tabs[0], names[0]
 }
